@@ -12,6 +12,7 @@
    the file; no artifact after failure.  The full statement is C13_full below. *)
 From Coq Require Import ZArith List Bool.
 From FV Require Import Models.LexerTot Models.ExitStatus Proofs.LexerTotP Proofs.ExitStatusP Proofs.LexerTotTable gen.Gen_C13.
+From FV Require Import Models.DualLabel Proofs.DualLabelP.
 Import ListNotations.
 Open Scope Z_scope.
 
@@ -84,6 +85,39 @@ Theorem C13_glue_as_ported :
   bag_glue_as_ported = true /\ main_other_exits_after_compile = 0 /\ main_fail_exit <> 0 /\ compile_run_checked = true.
 Proof. split; [exact gen_glue|split; [exact gen_no_other_exit|split; [exact gen_fail_exit|exact gen_run_checked]]]. Qed.
 Print Assumptions C13_glue_as_ported.
+
+(* 8. the emitter's underline arithmetic (printLabel, printCompactDualLabel): for ALL pairs of label spans on one line
+      whose start columns are >= 1 (nested, overlapping, adjacent, identical, reversed, ending on a later line) every
+      count handed to strings.Repeat is non-negative and both underlines are non-empty: rendering two labels on one
+      line cannot panic *)
+Theorem C13_dual_label_counts_nonneg : forall p s : span, 1 <= fst p -> 1 <= fst s ->
+  Forall (fun n => 0 <= n) (dual_counts (dual_layout p s)) /\
+  1 <= d_left_len (dual_layout p s) /\ 1 <= d_right_len (dual_layout p s).
+Proof.
+  intros p s Hp Hs. split; [exact (dual_counts_nonneg p s Hp Hs)|].
+  destruct (dual_nonneg p s Hp Hs) as [_ [B [_ D]]]. split; assumption.
+Qed.
+Print Assumptions C13_dual_label_counts_nonneg.
+
+Theorem C13_single_label_counts_nonneg : forall s : span, 1 <= fst s ->
+  0 <= fst (single_layout s) /\ 1 <= snd (single_layout s).
+Proof. exact single_nonneg. Qed.
+Print Assumptions C13_single_label_counts_nonneg.
+
+(* 8'. when the left underline does not run into the right label, the right underline sits under its own column *)
+Theorem C13_dual_label_aligned : forall p s : span, 1 <= fst p -> 1 <= fst s ->
+  let d := dual_layout p s in
+  let r := if d_left_primary d then s else p in
+  d_left_pad d + d_left_len d <= fst r - 1 -> d_left_pad d + d_left_len d + d_space d = fst r - 1.
+Proof. exact dual_aligned. Qed.
+Print Assumptions C13_dual_label_aligned.
+
+(* 8''. non-vacuity / sharpness: shrinking the right underline by the overlap (instead of clamping the gap) goes negative
+       on a nested pair — the arithmetic above is not trivially safe *)
+Theorem C13_dual_label_shrinking_variant_refuted :
+  exists p s : span, 1 <= fst p /\ 1 <= fst s /\ dual_layout_shrinking p s < 0.
+Proof. exact shrinking_variant_negative. Qed.
+Print Assumptions C13_dual_label_shrinking_variant_refuted.
 
 (* non-vacuity *)
 Theorem C13_nonvacuous_lexer :
